@@ -313,3 +313,31 @@ def permutations_of(spec, rnd, max_orders=24):
         rnd.shuffle(lo)
         out.append((list(o), lo))
     return out
+
+
+def gen_two_way(rnd):
+    """two-way coupling whose initial state is derived from a forcing:
+    G -> S.in0 ; S -> F ; F -> delay -> S.in1 ; S publishes after pulling in0 only, F after pulling S.
+    optional extra consumers of any output"""
+    stp = lambda: [rnd.choice([1, 2, 3, 5])]
+    comps = [
+        dict(name="c0", type="time", start=0, steps=stp(), nin=0, nout=1, initial_pull=True),
+        dict(name="c1", type="time", start=0, steps=stp(), nin=2, nout=1, initial_pull=True, push_deps=[0]),
+        dict(name="c2", type="time", start=0, steps=stp(), nin=1, nout=1, initial_pull=True, push_deps=[0]),
+    ]
+    need = int(sum(max(c["steps"]) for c in comps)) + rnd.choice([0, 1])
+    links = [
+        dict(src=["c0", 0], dst=["c1", 0], chain=draw_chain(rnd, maxlen=1, allow_delay=False)),
+        dict(src=["c1", 0], dst=["c2", 0], chain=draw_chain(rnd, maxlen=1, allow_delay=False)),
+        dict(src=["c2", 0], dst=["c1", 1], chain=delay_chain(rnd, need, allow_push=False)),
+    ]
+    for k in range(rnd.choice([0, 0, 1, 2])):
+        src = rnd.choice(["c0", "c1", "c2"])
+        comps.append(dict(name=f"c{3 + k}", type="time", start=0, steps=stp(), nin=1, nout=1, initial_pull=rnd.random() < 0.7))
+        links.append(dict(src=[src, 0], dst=[f"c{3 + k}", 0], chain=draw_chain(rnd, maxlen=1, allow_delay=False)))
+    order = list(range(len(comps)))
+    rnd.shuffle(order)
+    link_order = list(range(len(links)))
+    rnd.shuffle(link_order)
+    return dict(comps=comps, links=links, order=order, link_order=link_order, start=0, end=rnd.choice([10, 20]),
+                meta=dict(n_time=len(comps), cyclic=True, n_pull=0, two_way=True))
